@@ -156,7 +156,7 @@ Proof.
   - destruct ((length (firstn (pos' - start) q) =? 2) && forallb (Z.eqb 34) (firstn (pos' - start) q));
       [cbn [fst snd]; lia|].
     destruct (negb (existsb (Z.eqb 92) (firstn (pos' - start) q))); [cbn [fst snd]; lia|].
-    destruct (bytes_ascii (removelast (tl (firstn (pos' - start) q)))) as [[|]|]; cbn [fst snd]; lia.
+    destruct (string_kind cfg (removelast (tl (firstn (pos' - start) q)))) as [k0|]; cbn [fst snd]; lia.
   - lia.
   - exact H.
 Qed.
@@ -341,7 +341,7 @@ Proof.
   destruct ((length (firstn (stop - start) q) =? 2) && forallb (Z.eqb 34) (firstn (stop - start) q));
     [cbn; exact Hl|].
   destruct (negb (existsb (Z.eqb 92) (firstn (stop - start) q))); [cbn; exact Hl|].
-  destruct (bytes_ascii (removelast (tl (firstn (stop - start) q)))) as [[|]|]; cbn; try exact Hl; exact I.
+  destruct (string_kind cfg (removelast (tl (firstn (stop - start) q)))) as [k0|]; cbn; try exact Hl; exact I.
 Qed.
 
 Lemma lex_decimal_len : forall start pos rest, tlen rest (lex_decimal U cfg start (pos, rest)).
@@ -581,7 +581,7 @@ Proof.
   destruct ((length (firstn (stop - start) q) =? 2) && forallb (Z.eqb 34) (firstn (stop - start) q));
     [cbn; exact Hs|].
   destruct (negb (existsb (Z.eqb 92) (firstn (stop - start) q))); [cbn; exact Hs|].
-  destruct (bytes_ascii (removelast (tl (firstn (stop - start) q)))) as [[|]|]; cbn; try exact Hs; exact I.
+  destruct (string_kind cfg (removelast (tl (firstn (stop - start) q)))) as [k0|]; cbn; try exact Hs; exact I.
 Qed.
 
 Lemma lex_decimal_suf : forall start pos rest, tsuf rest (lex_decimal U cfg start (pos, rest)).
@@ -678,7 +678,7 @@ Qed.
 Definition set_string (r : regex) : config :=
   Config (rx_ws cfg) (rx_bare_suffix cfg) (rx_suffix_id cfg) r (rx_hex cfg) (rx_digits cfg) (rx_frac cfg)
          (rx_name cfg) (rx_name_suffix cfg)
-         (fx_ascii_digit cfg) (fx_int_guard cfg) (fx_label_validate cfg) (fx_label_redef cfg).
+         (fx_ascii_digit cfg) (fx_int_guard cfg) (fx_label_validate cfg) (fx_label_redef cfg) (fx_utf8_kind cfg).
 
 Definition quote_free (l : list Z) : Prop := forall c, In c l -> c <> 34%Z.
 
@@ -755,7 +755,9 @@ Proof.
   { intros s q cur. unfold lex_string. destruct (consume U (rx_string cfg) (s, q)) as [d o].
     destruct o as [[stop sf]| |]; cbn; try exact I.
     repeat match goal with |- context [if ?x then _ else _] => destruct x end; cbn; try (left; reflexivity).
-    destruct (bytes_ascii _) as [[|]|]; cbn; try exact I; [left|right]; reflexivity. }
+    unfold string_kind. destruct (fx_utf8_kind cfg).
+    - destruct (bytes_of _) as [bs|]; cbn; [|exact I]. destruct (utf8_valid bs); [left|right]; reflexivity.
+    - destruct (bytes_ascii _) as [[|]|]; cbn; try exact I; [left|right]; reflexivity. }
   destruct (o_alpha O c || (c =? 95)%Z); [left; apply Hbare; split; discriminate|].
   destruct (assoc c single_punct) as [k|] eqn:Ea; [left; unfold tkind; cbn; apply (assoc_kind c k Ea)|].
   destruct (c =? 46)%Z.
